@@ -4,6 +4,7 @@ import XsdataModel.Backends.Handler
 import XsdataModel.Backends.Writer
 import XsdataModel.Backends.Serializers
 import XsdataModel.Backends.Sources
+import XsdataModel.Backends.LxmlText
 open Lean Proto Py Xs.Bind Xs.Backends OpsBind
 
 namespace OpsBackends
@@ -49,8 +50,25 @@ def dIndent (a : Json) : Except String (Option Str) := dOptStr (field a "indent"
 def serCfg (a : Json) : SerCfg :=
   { ignoreDefaultAttributes := (field a "ignore_default_attributes").getBool?.toOption.getD false }
 
+partial def dCNode (j : Json) : Except String CNode :=
+  match j.getObjVal? "t", j.getObjVal? "m", j.getObjVal? "e" with
+  | .ok t, _, _ => (dStr t).map CNode.chars
+  | _, .ok (.str "c"), _ => .ok (.misc true)
+  | _, .ok _, _ => .ok (.misc false)
+  | _, _, .ok e => do
+    let ks ← asArr e
+    let ks ← ks.mapM dCNode
+    pure (.elem ks)
+  | _, _, _ => .error "bad content item"
+
 def run (op : String) (a : Json) : Option (Except String Json) :=
   match op with
+  | "c08.lxml_text" => some do
+      -- get_text / get_tail on every element of the tree libxml2 builds for the document
+      let items ← dList dCNode (field a "items")
+      let doc := [CNode.elem items]
+      let doc := if (field a "remove_comments").getBool?.toOption.getD false then dropComments doc else doc
+      pure (ok (jList (fun (tt : Option Str × Option Str) => Json.arr #[jOpt jStr tt.1, jOpt jStr tt.2]) (readsList doc)))
   | "c08.native_tree" => some do
       let Γ ← dCtx (field a "ctx")
       let v ← dVal (field a "value")
